@@ -134,13 +134,16 @@ func (c *ExecCtx) syncCall(st *State, fn *types.Func, f *ast.SelectorExpr, call 
 		c.callArgs = nil
 		return nil, true
 	case "(*sync.WaitGroup).Done":
+		c.runBeforeNamedCallAnchors(st, "Done", call, nil, nil)
 		c.wgAdd(st, f.X, IntLit(-1))
 		u.setTag(st, "wgdone:"+exprString(f.X))
 		return nil, true
 	case "(*sync.WaitGroup).Wait":
+		c.runBeforeNamedCallAnchors(st, "Wait", call, nil, nil)
 		c.yield(st)
 		c.joinWG(st, exprString(f.X))
 		u.setTag(st, "wgwait:"+exprString(f.X))
+		c.runNamedCallAnchors(st, "Wait", call, nil)
 		return nil, true
 	case "(*sync.WaitGroup).Go":
 		// wg.Go(f): accounted and joined by construction
